@@ -66,6 +66,12 @@ partial def inRtClass : Item → Bool
     | .atom (.ident m), [t] => m == n && t == n
     | _, _ => false
 
+/-- a name containing white space somewhere in the tree (NAME.CAT builds such names): finding K07 -/
+partial def hasBlankName : Item → Bool
+  | .list xs => xs.any hasBlankName
+  | .ident n => n.toList.any Char.isWhitespace
+  | _ => false
+
 /-- floats allowed in addition (print-parse-print stability) -/
 partial def inFloatClass : Item → Bool
   | .list xs => xs.all inFloatClass
@@ -89,6 +95,10 @@ def handleRoundtrip : List Sx → String
         else if inFloatClass item then
           (if reprinted == printed then ""
            else " PROPFAIL C11 print(parse(print t)) differs: " ++ encName reprinted)
+        else if hasBlankName item && (item.show.toList.all fun c => c != '[') then
+          -- names are in the property's scope whatever they contain; one with a blank prints as several words
+          (if encList (exec2.map encItem) == encList [encItem item] then ""
+           else " PROPFAIL C11 [K07] a name containing white space (as NAME.CAT builds them) prints as several words: parse(print t) is not t")
         else ""
       let mm3 := if showStack (exec2.map Item.show) == reprinted then ""
         else " MISMATCH model= reprint " ++ encName (showStack (exec2.map Item.show))
